@@ -325,8 +325,10 @@ static void process_ldr_str(
         }
           else
         {
-          snprintf(temp, sizeof(temp), "[%s, #%d] ; 0x%04x",
-            arm_reg[rn], offset, address + 8 + offset);
+          // The write back mark belongs to the operand, not to the comment.
+          snprintf(temp, sizeof(temp), "[%s, #%d]%s ; 0x%04x",
+            arm_reg[rn], offset, (w == 0) ? "" : "!", address + 8 + offset);
+          w = 0;
         }
       }
         else
